@@ -186,7 +186,7 @@ type EncPlan struct {
 	Write    core.WritePlan `json:"write"`
 	PtrEvery int            `json:"ptr_every"`
 	Past     int            `json:"encoder_past,omitempty"` // 0 fresh Encoder; else one that was used before (1 bytes.Buffer, 2 plain writer, 3 plain writer that failed) with output still buffered, then Reset
-	Deep     int            `json:"deep,omitempty"` // containers opened by tokens before Calls (deep mode)
+	Deep     int            `json:"deep,omitempty"`         // containers opened by tokens before Calls (deep mode)
 	DeepObj  bool           `json:"deep_obj,omitempty"`
 	// SweepFaults (c07): additionally place one write fault of every kind at EVERY byte of the output.
 	SweepFaults bool `json:"sweep_write_faults,omitempty"`
@@ -509,7 +509,30 @@ func (sc *Enc) addWriteFault(ws *core.Stream, p *EncPlan) {
 	}
 }
 
-var nameFamily = []string{"a", "b", "k0", "k1", "", "a/b", "m~n", "ä", "\u2028", "<&>", "long_name_long_name_long_name_long_name_long_name_long_name_long_name_"}
+var nameFamily = []string{"a", "b", "k0", "k1", "", "a/b", "m~n", "ä", "\u2028", "<&>", "long_name_long_name_long_name_long_name_long_name_long_name_long_name_", "a\tb", "q\"q", "back\\slash", "nl\n", "a\\tb"}
+
+// rawName spells a member name as a raw JSON string: canonically, or with every
+// character that allows it written as a \uXXXX escape (names are compared after
+// unescaping, whatever the spelling).
+func rawName(cs *core.Stream, name string) string {
+	if cs.Chance(2, 3) {
+		return refjson.Quote(name, false, false)
+	}
+	b := []byte{'"'}
+	upper := cs.Bool()
+	for _, r := range name {
+		if r < 0x80 && (r < 0x20 || r == '"' || r == '\\' || r == '/' || cs.Chance(1, 3)) {
+			if upper {
+				b = append(b, fmt.Sprintf("\\u%04X", r)...)
+			} else {
+				b = append(b, fmt.Sprintf("\\u%04x", r)...)
+			}
+			continue
+		}
+		b = append(b, string(r)...)
+	}
+	return string(append(b, '"'))
+}
 
 func (sc *Enc) genMixed(cs *core.Stream, p *EncPlan, env *Env) {
 	o := &p.Opts
@@ -564,7 +587,7 @@ func (sc *Enc) freshName(cs *core.Stream, fresh *int) string {
 }
 
 func (sc *Enc) smallValue(cs *core.Stream, o *EncOpts, valid bool) string {
-	text := gen.Text(cs, gen.JSONCfg{MaxBytes: 32 + cs.Draw(400), MaxDepth: 1 + cs.Draw(4), InvalidUTF8: cs.Chance(1, 6), DupNames: cs.Chance(1, 6)})
+	text := gen.Text(cs, gen.JSONCfg{MaxBytes: 32 + cs.Draw(400), MaxDepth: 1 + cs.Draw(4), InvalidUTF8: cs.Chance(1, 6), DupNames: cs.Chance(1, 6), CollideNames: cs.Chance(1, 8)})
 	if !valid {
 		text = gen.Mutate(cs, text)
 	}
@@ -577,7 +600,7 @@ func (sc *Enc) genLegal(cs *core.Stream, m *refjson.Model, o *EncOpts, fresh *in
 		case 0:
 			return EncCall{Op: 'T', Tok: 's', S: sc.freshName(cs, fresh), Raw: cs.Chance(1, 5)}
 		case 1:
-			return EncCall{Op: 'V', Val: refjson.Quote(sc.freshName(cs, fresh), false, false)}
+			return EncCall{Op: 'V', Val: rawName(cs, sc.freshName(cs, fresh))}
 		default:
 			return EncCall{Op: 'T', Tok: '}'}
 		}
@@ -657,7 +680,7 @@ func (sc *Enc) genIllegal(cs *core.Stream, m *refjson.Model, o *EncOpts, fresh *
 		}
 		return EncCall{Op: 'V', Val: sc.smallValue(cs, o, false)}
 	default: // raw repeated name
-		return EncCall{Op: 'V', Val: refjson.Quote(nameFamily[cs.Draw(len(nameFamily))], false, false)}
+		return EncCall{Op: 'V', Val: rawName(cs, nameFamily[cs.Draw(len(nameFamily))])}
 	}
 }
 
